@@ -27,7 +27,18 @@ var noopPkgPrefixes = []string{
 	"go.opentelemetry.io/otel",
 }
 
+// callSSARaw runs the real body of the function a model stands for (used by models that only
+// take over for symbolic arguments).
+func callSSARaw(i *interpreter, fr *frame, _ string, args []value) value {
+	i.skipExt = fr.fn
+	return callSSA(i, fr.caller, token.NoPos, fr.fn, args, nil)
+}
+
 func (i *interpreter) lookupExternal(fn *ssa.Function) externalFn {
+	if i.skipExt == fn {
+		i.skipExt = nil
+		return nil
+	}
 	name := fn.String()
 	if ext, ok := externals[name]; ok {
 		i.res.Stubs[name] = true
